@@ -16,8 +16,8 @@ def c17b_curves(tier):
 # copies) a reduced count — every targeted forgery class still occurs on every curve (see MANDATORY).
 JOBS = [
     dict(name="b-permutation", pkg="c17b", run="^TestC17b_Permutation$", shards=c17b_curves, checks=(40, 300), weight=3),
-    dict(name="b-lookupvector", pkg="c17b", run="^TestC17b_LookupVector$", shards=c17b_curves, checks=(30, 130), weight=4),
-    dict(name="b-lookuptables", pkg="c17b", run="^TestC17b_LookupTables$", shards=c17b_curves, checks=(14, 55), weight=5),
+    dict(name="b-lookupvector", pkg="c17b", run="^TestC17b_LookupVector$", shards=c17b_curves, checks=(20, 110), weight=4),
+    dict(name="b-lookuptables", pkg="c17b", run="^TestC17b_LookupTables$", shards=c17b_curves, checks=(12, 50), weight=5),
     dict(name="b-fri", pkg="c17b", run="^TestC17b_FRI$", shards=c17b_curves, checks=(150, 1200), weight=2),
     dict(name="b-permutation-x", pkg="c17b", run="^TestC17b_Permutation$", shards=C17B_REST, checks=(14, 14), tiers=("quick",), weight=2),
     dict(name="b-lookupvector-x", pkg="c17b", run="^TestC17b_LookupVector$", shards=C17B_REST, checks=(10, 10), tiers=("quick",), weight=3),
